@@ -62,6 +62,7 @@ def make_pool():
         Plain("u"), Plain("v"),                     # 27-28
         0, "",                                      # 29-30 falsy data
         "t ", "  ",                                 # 31-32 strings that end in / consist of white space (renderings that `strip` would change)
+        Plain("u"),                                 # 33 another object with the same str() as 27 (distinct identity, hash, data_id)
     ]
     return pool
 
